@@ -77,6 +77,9 @@ def verify_function(interp, key, contract, max_paths=4000):
     rep.sha = fi.sha
     t0 = time.time()
     interp.top_key = key
+    import os as _os
+    interp.deadline = t0 + float(_os.environ.get('PYVC_GEN_BUDGET', '400'))
+    interp.spec_alias = {}
     cases = contract.get('cases') or [{}]
     for ci, case in enumerate(cases):
         restarts = 0
